@@ -59,6 +59,6 @@ m={"version":1,
  "engines":[{"name":"sim","path":"/verif/sim","serves_properties":sorted(done),"kind_free_text":"deterministic simulator for the emulator: seeded scheduler over parked goroutines, synctest fake clock, in-memory transport, reference model, oracles, shrinker, driver (sim/cmd/vcheck)"}],
  "checks":checks,
  "not_applicable":na,
- "notes":"exit codes: 0 held / 1 VIOLATION / 2 harness trouble. VERIF_SEED selects the seed block. H6 rewrites one token (net.Listen -> netListen), hence add_only=false."}
+ "notes":"exit codes: 0 held / 1 VIOLATION / 2 harness trouble. VERIF_SEED selects the seed block. H6 rewrites one token (net.Listen -> netListen) and H8 rewrites the map ranges and the two multi-ready selects it puts behind seams (simKeys, simSelectFirst), hence add_only=false. bin/check selftest-determinism | selftest-race | selftest-hooks are harness self-tests (exit 0 / 2)."}
 json.dump(m,open('/verif/MANIFEST.json','w'),indent=1)
 print("claimed:",sorted(done))
